@@ -112,6 +112,14 @@ def gen_percent(ctx, n_random: int):
             if rng.random() < 0.3:
                 out.append((tsrc, "()", conv))
                 out.append((tsrc, f"({rng.choice(SCALARS)}, {rng.choice(SCALARS)})", conv))
+    # (1b) "%%" next to every kind of specifier (it consumes no argument): mapping keys, positional, stars
+    for is_bytes in (False, True):
+        for text, args in [("%(a)s 100%%", "{'a': 1}"), ("%% %(a)d", "{'a': 1}"), ("%(a)s%%%(b)s", "{'a': 1, 'b': 2}"), ("%(a)s %%", "{}"),
+                           ("%(a)s %%", "{'b': 1}"), ("%s %%", "1"), ("%% %s %%", "(1,)"), ("%%%s", "()"), ("%*d%%", "(3, 1)"), ("100%%", "()"),
+                           ("100%%", "1"), ("%%", "{'a': 1}"), ("%%(a)s", "{'a': 1}"), ("%(a)%", "{'a': 1}"), ("%5%", "()"), ("%-%", "()"), ("%.2%", "()")]:
+            if is_bytes:
+                args = args.replace("'a'", "b'a'").replace("'b'", "b'b'")
+            out.append((("b" if is_bytes else "") + repr(text), args, "percent-escape"))
     # (2) random multi-specifier templates, incl. mapping keys, with tuple / dict args
     for _ in range(n_random):
         n = rng.randrange(1, 4)
